@@ -184,7 +184,7 @@ func (r *SparseIntVector) VmulV(a, b ConstVector) Vector {
     s_a := it.s2
     s_b := it.s3
     if s_r.ptr == nil {
-      continue
+      s_r = r.AT(it.Index())
     }
     s_r.Mul(s_a, s_b)
   }
@@ -220,7 +220,7 @@ func (r *SparseIntVector) VmulS(a ConstVector, b ConstScalar) Vector {
     s_r := it.s1
     s_a := it.s2
     if s_r.ptr == nil {
-      continue
+      s_r = r.AT(it.Index())
     }
     s_r.Mul(s_a, b)
   }
